@@ -70,6 +70,29 @@
 (* tname: the gun's target is given by name; TARGETHOST is then that name  *)
 (* (negative control "target_resolved": the resolved address instead).     *)
 (*                                                                         *)
+(* Request-targets (rt): a case may carry rt = [segs, query], a request-   *)
+(* target in origin-form that is VALID by RFC 3986 but not spelled the way *)
+(* Go's url package would spell it by itself: percent-encoded reserved     *)
+(* characters (%2F %3F %25), lower-case hex, encoded unreserved, the       *)
+(* sub-delims ( ) ' * ! , ; =, ":" "@", an empty segment, a bare "?".      *)
+(* Each piece says its spelling in the ammo (raw), what a decode + default *)
+(* re-escape would make of it (norm; used by the negative control          *)
+(* "uri_rebuilt" only: the gun rebuilds the URL from the decoded path and  *)
+(* the non-empty query) and its RFC 3986 character class.  c.uri is        *)
+(* Spell(rt), built by TLC; what must arrive is that very spelling.        *)
+(* preload (when present) says how the provider reads the file.            *)
+(*                                                                         *)
+(* http2 gun (components/guns/http/http.go NewHTTP2Gun): gun = "http2",    *)
+(* always over TLS.  h2 (when present) says whether the TLS target offers  *)
+(* HTTP/2 next to HTTP/1.1.  Against such a target the http2 gun's request *)
+(* arrives as HTTP/2.0 and is otherwise Wire(c) of the http gun (:path =   *)
+(* uri, :authority = Host, the same header rule and framing); the http and *)
+(* connect guns stay on HTTP/1.1 whatever the target offers (they offer    *)
+(* http/1.1 only).  Against a target that does not speak h2 the http2 gun  *)
+(* delivers NOTHING - it never falls back to HTTP/1.1 silently: the shot   *)
+(* panics ("Will panic and cancel shooting", http.go) and reports at most  *)
+(* one sample.  Negative control "h2_fallback".                            *)
+(*                                                                         *)
 (* Multi-entry files: a file case f = [kind "file", fmt, ssl, preload,     *)
 (* opts, entries <<[hl, uri, body]>>]; hl are the header lines written     *)
 (* before the entry.  In uri/uripost files `[Name: value]` / `[Host: h]`   *)
@@ -84,6 +107,7 @@ CONSTANTS Formats,      \* subset of {"uri", "uripost", "raw", "json"}
           Methods,      \* method tokens for the formats that carry one (raw, json)
           URIs,         \* request-URI tokens
           ExtraURIs,    \* request-URI tokens explored in the side space only
+          Targets,      \* structured RFC 3986 request-targets [segs, query] ({} = none)
           Bodies,       \* non-empty body tokens (the empty body is always included)
           EntryHdrs,    \* sequence of [n, v]: alphabet of entry header fields
           OptHdrs,      \* sequence of [n, v]: alphabet of option header fields (may contain Host)
@@ -93,6 +117,7 @@ CONSTANTS Formats,      \* subset of {"uri", "uripost", "raw", "json"}
           MWNames,      \* header/date middleware: header names explored ("" = the default, Date); {} = none
           SideFilters,  \* answlog filters explored with httptrace on/off ({} = no side-channel cases)
           ConnectModes, \* connect gun: values of connect-ssl explored ({} = no connect cases)
+          H2Modes,      \* http2 gun / h2-capable target: subset of BOOLEAN = what the target offers ({} = no such cases)
           SSLModes,     \* subset of BOOLEAN
           CompressModes,\* subset of BOOLEAN (TRUE is explored in the side space only)
           Variant
@@ -114,6 +139,25 @@ BodiesOf(f)  == IF f = "uri" THEN {""} ELSE {""} \cup Bodies
 
 \* the header the header/date middleware writes
 MWHeader(n) == IF n = "" THEN "Date" ELSE n
+
+\* ---- request-targets ----
+\* a piece of a path segment / a query: [raw, norm, class]
+RECURSIVE PathRaw(_), PathNorm(_)
+PathRaw(segs)  == IF segs = <<>> THEN "" ELSE "/" \o Head(segs).raw \o PathRaw(Tail(segs))
+PathNorm(segs) == IF segs = <<>> THEN "" ELSE "/" \o Head(segs).norm \o PathNorm(Tail(segs))
+\* the request-target as the ammo spells it ...
+Spell(t)   == PathRaw(t.segs) \o t.query.raw
+\* ... and as a client would spell it that keeps only the decoded path and the non-empty query
+Rebuilt(t) == PathNorm(t.segs) \o t.query.norm
+\* RFC 3986: segment = *pchar, pchar = unreserved / pct-encoded / sub-delims / ":" / "@"; query = *( pchar / "/" / "?" )
+PCharClasses == {"unreserved", "pct-encoded", "sub-delims", "colon-at"}
+ValidTarget(t) == /\ t.segs # <<>>
+                  /\ \A k \in DOMAIN t.segs : t.segs[k].class \in PCharClasses
+                  /\ t.query.class \in PCharClasses \cup {"none", "slash-qmark"}
+\* (method, body) pairs of the request-target family
+TargetMB(f) == CASE f = "uri" -> {<<"GET", "">>}
+                 [] f = "uripost" -> {<<"POST", "">>} \cup {<<"POST", b>> : b \in Bodies}
+                 [] OTHER -> {<<"GET", "">>} \cup {<<"POST", b>> : b \in Bodies}
 
 Case(f, s, z, m, u, h, eh, oh, b) ==
     [fmt |-> f, ssl |-> s, compress |-> z, method |-> m, uri |-> u, host |-> h, ehdr |-> eh, opts |-> oh, body |-> b]
@@ -148,6 +192,31 @@ Cases == UNION { { Case(f, s, FALSE, m, u, h, eh, oh, b) :
                  { Case(f, s, FALSE, m, "/", FALSE, ho[1], ho[2], b) @@ [side |-> [answlog |-> a, status |-> st, trace |-> t]] :
                      m \in MethodsOf(f), b \in BodiesOf(f), s \in SSLModes \cap {FALSE}, a \in SideFilters, st \in {200, 404, 503},
                      t \in BOOLEAN, ho \in {<< <<>>, <<>> >>, <<EntryHdrs, OptHdrs>>} }
+                 \cup
+                 \* valid RFC 3986 request-targets in a spelling of their own: every format, with and without an ammo Host,
+                 \* streamed and preloaded, http and https - through the http gun ...
+                 { Case(f, s, FALSE, mb[1], Spell(t), h, <<>>, <<>>, mb[2]) @@ [rt |-> t, preload |-> p] :
+                     t \in Targets, mb \in TargetMB(f), s \in SSLModes, h \in BOOLEAN, p \in BOOLEAN }
+                 \cup
+                 \* ... and through the tunnel of the connect gun
+                 { Case(f, s, FALSE, mb[1], Spell(t), FALSE, <<>>, <<>>, mb[2]) @@ [rt |-> t, preload |-> p]
+                     @@ [gun |-> "connect", cssl |-> z, cstatus |-> 200] :
+                     t \in Targets, mb \in TargetMB(f), s \in SSLModes, p \in BOOLEAN, z \in ConnectModes \cap {FALSE} }
+                 \cup
+                 \* the http2 gun against a TLS target that offers h2 (h2 = TRUE: the request arrives as HTTP/2.0) or only
+                 \* HTTP/1.1 (h2 = FALSE: nothing arrives, the shot panics), without any / with all entry and option headers
+                 { Case(f, TRUE, FALSE, m, u, h, ho[1], ho[2], b) @@ [gun |-> "http2", h2 |-> x] :
+                     m \in MethodsOf(f), b \in BodiesOf(f), u \in URIs, h \in BOOLEAN, x \in H2Modes,
+                     ho \in {<< <<>>, <<>> >>, <<EntryHdrs, OptHdrs>>} }
+                 \cup
+                 \* ... request-targets in a spelling of their own through the http2 gun (:path)
+                 { Case(f, TRUE, FALSE, mb[1], Spell(t), FALSE, <<>>, <<>>, mb[2]) @@ [rt |-> t, preload |-> FALSE]
+                     @@ [gun |-> "http2", h2 |-> TRUE] : t \in Targets, mb \in TargetMB(f), x \in H2Modes \cap {TRUE} }
+                 \cup
+                 \* ... and the http gun against the target that offers h2 as well: it stays on HTTP/1.1
+                 { Case(f, TRUE, FALSE, m, "/", h, ho[1], ho[2], b) @@ [h2 |-> TRUE] :
+                     m \in MethodsOf(f), b \in BodiesOf(f), h \in BOOLEAN, x \in H2Modes \cap {TRUE},
+                     ho \in {<< <<>>, <<>> >>, <<EntryHdrs, OptHdrs>>} }
                  \cup
                  \* the connect gun: same entry through a CONNECT tunnel, without any / with all entry and option headers
                  { Case(f, s, FALSE, m, "/", h, ho[1], ho[2], b) @@ [gun |-> "connect", cssl |-> z, cstatus |-> 200] :
@@ -208,7 +277,7 @@ WireHeaders(c) ==
 Wire(c) == [scheme  |-> IF c.ssl THEN "https" ELSE "http",
             server  |-> "target",
             method  |-> c.method,
-            uri     |-> c.uri,
+            uri     |-> IF Variant = "uri_rebuilt" /\ "rt" \in DOMAIN c THEN Rebuilt(c.rt) ELSE c.uri,
             host    |-> WireHost(c),
             headers |-> WireHeaders(c),
             body    |-> c.body]
@@ -265,6 +334,17 @@ ConnectOK(c, o) == IF IsConnect(c)
 TunnelRefusedOK(c, o, samples) ==
     /\ o.n = 0 /\ Len(o.connects) >= 1
     /\ Len(samples) = 1 /\ samples[1].proto = 0 /\ samples[1].net # 0
+
+\* ---- http2 gun ----
+IsHTTP2(c) == "gun" \in DOMAIN c /\ c.gun = "http2"
+OffersH2(c) == "h2" \in DOMAIN c /\ c.h2
+\* the http2 gun never speaks HTTP/1.1: a target without h2 gets nothing (negative control: it falls back)
+H2Mismatch(c) == IsHTTP2(c) /\ ~OffersH2(c) /\ Variant # "h2_fallback"
+\* the protocol version a delivered request arrives in
+WireProto(c) == IF IsHTTP2(c) /\ OffersH2(c) THEN "HTTP/2.0" ELSE "HTTP/1.1"
+ProtoOK(c, o) == o.proto = WireProto(c)
+\* nothing reaches any server, Shoot panics (the engine cancels the pool), at most one sample
+H2MismatchOK(c, o, samples, panic) == o.n = 0 /\ panic # "" /\ Len(samples) <= 1
 
 -----------------------------------------------------------------------------
 (* Acceptance of an observation o (what the recording target saw for case c):                       *)
@@ -351,6 +431,12 @@ TunnelTransparent == IsConnect(C) =>
                         /\ Wire(C) = Wire([k \in DOMAIN C \ {"gun", "cssl", "cstatus"} |-> C[k]])
                         /\ ConnectLine(C).uri = "GUNTARGET" /\ ConnectLine(C).host = ConnectLine(C).uri
                         /\ ConnectLine(C).tls = C.cssl
+\* the http2 gun changes the protocol version and nothing else; every other gun speaks HTTP/1.1 whatever the target offers
+H2Transparent == /\ IsHTTP2(C) => /\ C.ssl
+                                  /\ Wire(C) = Wire([k \in DOMAIN C \ {"gun", "h2"} |-> C[k]])
+                                  /\ (WireProto(C) = "HTTP/2.0") = OffersH2(C)
+                                  /\ H2Mismatch(C) = ~OffersH2(C)
+                 /\ ~IsHTTP2(C) => WireProto(C) = "HTTP/1.1" /\ ~H2Mismatch(C)
 \* a target given by name is named in Host (absent an ammo / option Host) and in the TLS handshake
 NamedTarget == ("tname" \in DOMAIN C /\ C.tname) =>
                   /\ (~C.host /\ OptHost(C) = "") => Wire(C).host = "TARGETHOST"
@@ -358,6 +444,12 @@ NamedTarget == ("tname" \in DOMAIN C /\ C.tname) =>
 \* the body's length is announced, never chunked
 FramingSane == /\ \A h \in FramingHeaders(C) : h.n = "Content-Length"
                /\ (C.body # "") => FramingHeaders(C) # {}
+\* a valid RFC 3986 request-target arrives in the spelling of the ammo, byte for byte: no decoding, no re-escaping,
+\* no normalisation of hex case / dot segments / empty segments, a bare "?" stays - whichever gun carries it
+TargetVerbatim == "rt" \in DOMAIN C =>
+                     /\ ValidTarget(C.rt)
+                     /\ C.uri = Spell(C.rt)
+                     /\ Wire(C).uri = Spell(C.rt)
 \* the rest is carried unchanged, the connection goes to the target with the configured scheme
 Unchanged == /\ Wire(C).method = C.method /\ Wire(C).uri = C.uri /\ Wire(C).body = C.body
              /\ Wire(C).server = "target" /\ (Wire(C).scheme = "https") = C.ssl
